@@ -86,6 +86,16 @@ PublishOnce(r, C) ==
       connects == Len(SelectSeq(ss, LAMBDA x : x.k = "connect")) IN
   Op(C.root) = "publish" => r.cnt[CntDefer] = (IF connects > 0 THEN 1 ELSE 0)
 
+(* C07 (thread part): the scripts feed items and the completion into the source of observe_on / delay while another thread *)
+(* polls the tasks; after the epilogue has run the executor to idle the subscriber has received every item, in order, and   *)
+(* the completion                                                                                                        *)
+MovedAll(r, C) ==
+  LET ss == AllStims(C.threads)
+      em == EmittedItems(ss) IN
+  (Op(C.root) \in {"observe_on", "delay"} /\ C.post # <<>> /\ Completes(ss, 1)
+     /\ \A i \in 1..Len(ss) : ss[i].k \in {"run", "runall"} \/ (ss[i].k = "emit" /\ ss[i].t # "E")) =>
+     \A p \in DOMAIN r.probes : IsSetup(p) => r.probes[p] = [i \in 1..Len(em) |-> <<"N", em[i]>>] \o <<<<"C", U>>>>
+
 Judge(r) ==
   LET C == Cases[r.c]
       chk == C.checks
@@ -98,6 +108,7 @@ Judge(r) ==
      \o f(Op(C.root) = "subject" /\ (r.stuck \/ r.fault # "" \/ r.late), "C06")
      \o f(~r.stuck /\ r.fault = "" /\ ~FlatComplete(r, C), "C05")
      \o f(~r.stuck /\ r.fault = "" /\ ~(ShareDelivery(r, C) /\ PublishOnce(r, C)), "C11")
+     \o f(~r.stuck /\ r.fault = "" /\ ~MovedAll(r, C), "C07")
      \o f(r.late, "C02")
      (* C17, last clause, under threads: in a pipeline whose subscription is a composite (merge_all ...) a subscriber called  *)
      (* after unsubscribe() returned means that an addition racing with the teardown was left running                       *)
